@@ -8,7 +8,8 @@ d=$(realpath "$1"); shift
 vd=$(dirname "$(realpath "$0")")/..
 wt=$(mktemp -d /tmp/seedrun.XXXXXX)
 git -C /repo worktree add -q --detach "$wt" "${SEED_BASE:-HEAD}" || exit 2
-trap 'git -C /repo worktree remove --force "$wt" >/dev/null 2>&1; rm -rf "$wt"' EXIT
+export TMPDIR=$(mktemp -d /tmp/seedtmp.XXXXXX) # the engine's scratch module files for VERIF_REPO land here
+trap 'git -C /repo worktree remove --force "$wt" >/dev/null 2>&1; rm -rf "$wt" "$TMPDIR"' EXIT
 git -C "$wt" apply "$d/patch.diff" 2>/dev/null || git -C "$wt" apply -3 "$d/patch.diff" >/dev/null 2>&1 || { echo "patch does not apply"; exit 2; }
 for p in "$@"; do
   out=$(cd "$vd" && VERIF_REPO="$wt" ./check "$p" 2>&1); rc=$?
